@@ -171,7 +171,10 @@ func scenario(be backend, opts pubsub.BrokerOptions, pubs, msgs int, late, unsub
 					}
 				}
 			}
-			if be.lossless && opts.WorkerPoolSize <= 1 && !opts.ParallelDispatch {
+			// a single dispatch worker, with or without ParallelDispatch (which fans
+			// one message out to the subscribers concurrently and waits for all of
+			// them before the worker takes the next message)
+			if be.lossless && opts.WorkerPoolSize <= 1 {
 				// same order at all subscribers for the messages both received
 				idx := map[int]int{}
 				for i, m := range subs[0].got {
